@@ -38,6 +38,8 @@ PINS = [
     ("androguard/decompiler/util.py", "common_dom"),
     ("androguard/decompiler/decompile.py", "DvMethod.__init__"),
     ("androguard/decompiler/decompile.py", "DvMethod.process"),
+    ("androguard/decompiler/decompile.py", "DvMethod._init_variables"),
+    ("androguard/decompiler/decompile.py", "DvClass.process"),
     ("androguard/decompiler/decompile.py", "DvClass.__init__"),
     ("androguard/decompiler/decompile.py", "DvClass.process_method"),
     ("androguard/decompiler/dast.py", "JSONWriter.get_ast"),
@@ -58,8 +60,10 @@ PINS = [
 # the ORDER dimension: source-only orders and orders in which AST-mode requests (A/a methods, X/x classes; fresh
 # DvMethod/DvClass objects, as DecompilerDAD.get_ast_method/get_ast_class create them) precede or follow the source
 # requests whose text is compared.  The first 8 are the quick tier.
-ORDERS = ["M", "AM", "CM", "XC", "Mrev", "Ma", "C2", "Cx",
-          "MC", "aM", "C", "xM", "AXC", "MX", "CA", "XM"]
+# F = fault then retry: process() aborted by an injected exception / small recursion limit, then process() again on
+# the same DvMethod; its text must equal the text of a fresh object.
+ORDERS = ["M", "AM", "FCM", "XC", "Mrev", "MaF", "C2", "Cx",
+          "MC", "aM", "C", "xM", "AXC", "MX", "CA", "XM", "FM", "CF"]
 CORPUS = os.path.join(fw.VERIF, "corpus", "C22")
 
 
@@ -187,7 +191,7 @@ def corpus_cases():
 def group_key(k):
     """M/K keys of one method, C/R keys of one class must all carry the same source text;
     A keys of one method / X keys of one class the same JSON AST text"""
-    return {"M": "m ", "K": "m ", "C": "c ", "R": "c ", "A": "a ", "X": "x "}[k[0]] + k[2:]
+    return {"M": "m ", "K": "m ", "F": "m ", "C": "c ", "R": "c ", "A": "a ", "X": "x "}[k[0]] + k[2:]
 
 
 def compare_outputs(runs):
@@ -249,7 +253,7 @@ def sweep(ck, pool, files, cfgs, nclasses, include, stream):
     """decompile (a sample of) every file under every config; compare. returns stats"""
     jobs, meta, specs = [], [], {}
     for path, size in files:
-        spec0 = {"file": path, "lazy": nclasses is not None}
+        spec0 = {"file": path, "lazy": nclasses is not None, "fault_seed": ck.seed}
         specs[path] = spec0
         if nclasses is not None:
             spec0["sample"] = {"seed": "C22/%d/%s" % (ck.seed, os.path.basename(path)), "n": nclasses,
@@ -260,11 +264,14 @@ def sweep(ck, pool, files, cfgs, nclasses, include, stream):
             meta.append((path, cfg))
     outs = pool.map(jobs)
     byfile = {}
+    faults = {}
     hook_missing = False
     for (path, cfg), out in zip(meta, outs):
         if cfg[1] is not None and out.get("hook") != HOOK:
             hook_missing = True
         byfile.setdefault(path, []).append((cfg, out["results"]))
+        for k, v in (out.get("faults") or {}).items():
+            faults["fault " + k] = faults.get("fault " + k, 0) + v
     tot_groups = tot_diff = tot_texts = 0
     distinct = set()
     for path, runs in byfile.items():
@@ -278,6 +285,8 @@ def sweep(ck, pool, files, cfgs, nclasses, include, stream):
                     distinct.add(v)
         if diffs:
             report_diffs(ck, pool, path, specs[path], diffs, limit=2)
+    if faults:
+        ck.cover(dist=faults)
     ck.cover(evaluations=tot_texts, distinct=distinct,
              dist={stream + "_files": len(byfile), stream + "_configs": len(cfgs), stream + "_groups": tot_groups,
                    stream + "_groups_differing": tot_diff})
